@@ -69,16 +69,40 @@ def purgeRule (pre post : Dir) (now : Int) : Option File :=
     !(post.index.any fun g => sameBase g f.compound f.key && g.repos == f.repos) &&
     !(f.repos.any fun r => !r.tomb && (oldInTrash pre now r.id || searchable pre.index r.id))
 
-/-- why an assigned repository was lost — the classes of DESIGN §8 (compound shard deleted as a whole) and of
-    basename collisions, used as failure keys -/
-def lossClass (pre : Dir) (id : Nat) : String :=
-  if pre.index.any fun f => aliveIn f id && f.compound then "assigned-lost-compound-shard-deleted"
-  else if pre.index.any fun f => aliveIn f id && (hasBase pre.trash f.compound f.key) then "assigned-lost-basename-collision"
+/-- the (repository, index file) pairs that violate assigned_kept: the repository is assigned and consistently named, was
+    alive in the file, and is not alive under that file name any more -/
+def lostPairs (pre post : Dir) (assigned : List Nat) : List (Nat × File) :=
+  assigned.flatMap fun id =>
+    if consistent pre.index id then
+      (pre.index.filter fun f => aliveIn f id && !keptIn post.index f id).map fun f => (id, f)
+    else []
+
+/-- the file also held, alive, a repository that is not assigned or whose shards disagree on its name: the one situation
+    in which cleanup has to take something out of this very file -/
+def holdsForeign (pre : Dir) (assigned : List Nat) (f : File) : Bool :=
+  f.repos.any fun r => !r.tomb && (!assigned.contains r.id || !consistent pre.index r.id)
+
+/-- why an assigned repository lost the file `f` — failure keys. Only two classes are known findings (DESIGN §8): the
+    whole *compound* shard was deleted although it still held assigned repositories, *because it also held a repository
+    that had to leave it* (`holdsForeign`), and file-name collisions with the trash. They are exactly the exclusions of
+    theorem `assigned_kept_partial`; every other loss is `assigned-lost`. -/
+def lossClass (pre : Dir) (assigned : List Nat) (f : File) : String :=
+  if holdsForeign pre assigned f then
+    (if f.compound then "assigned-lost-compound-shard-deleted" else "assigned-lost-shared-simple-shard")
+  else if hasBase pre.trash f.compound f.key then "assigned-lost-basename-collision"
   else "assigned-lost"
 
+/-- the key reported for a case: an unclassified loss wins over the known classes -/
+def lossKey (pre : Dir) (assigned : List Nat) (lost : List (Nat × File)) : Option String :=
+  match lost with
+  | [] => none
+  | p :: _ =>
+    if lost.any (fun q => lossClass pre assigned q.2 == "assigned-lost") then some "assigned-lost"
+    else some (lossClass pre assigned p.2)
+
 def checkP (pre : Dir) (assigned : List Nat) (now : Int) (post : Dir) : Option String :=
-  match assignedKept pre post assigned with
-  | some id => some (lossClass pre id)
+  match lossKey pre assigned (lostPairs pre post assigned) with
+  | some k => some k
   | none =>
   match assignedRestored pre post assigned now with
   | some id =>
